@@ -960,6 +960,11 @@ func allocAssignedOnce(a *ssa.Alloc) bool {
 				if u.Addr != ssa.Value(a) {
 					return false
 				}
+				if storeRepeats(a.Block(), u.Block()) {
+					// one store in the text, but it sits in a loop that does not re-allocate the cell (a range variable of a
+					// pre-1.22 module captured by a closure): the cell is assigned once per iteration
+					return false
+				}
 				n++
 			case *ssa.UnOp, *ssa.DebugRef:
 			case *ssa.MakeClosure:
@@ -975,6 +980,29 @@ func allocAssignedOnce(a *ssa.Alloc) bool {
 		}
 	}
 	return n == 1
+}
+
+// storeRepeats: can the block of the store be reached again from itself without passing through the block that allocates
+// the cell? (then the same cell is stored to more than once)
+func storeRepeats(allocBlock, storeBlock *ssa.BasicBlock) bool {
+	if allocBlock == storeBlock || allocBlock == nil || storeBlock == nil {
+		return false
+	}
+	seen := map[*ssa.BasicBlock]bool{}
+	work := append([]*ssa.BasicBlock(nil), storeBlock.Succs...)
+	for len(work) > 0 {
+		b := work[len(work)-1]
+		work = work[:len(work)-1]
+		if b == allocBlock || seen[b] {
+			continue
+		}
+		if b == storeBlock {
+			return true
+		}
+		seen[b] = true
+		work = append(work, b.Succs...)
+	}
+	return false
 }
 
 func freeVarWritten(fn *ssa.Function, idx int, depth int) bool {
